@@ -558,6 +558,52 @@ impl<C: ContentAddrStore> ConfirmedState<C> {
     }
 }
 
+/// Read-only projection of an unsealed state, for external verification harnesses.
+/// Only compiled with `--cfg melstf_verif`.
+#[cfg(melstf_verif)]
+#[derive(Clone, Debug)]
+pub struct VerifView<C: ContentAddrStore> {
+    pub network: NetID,
+    pub height: BlockHeight,
+    pub fee_pool: CoinValue,
+    pub fee_multiplier: u128,
+    pub tips: CoinValue,
+    pub dosc_speed: u128,
+    pub coins: novasmt::Tree<C>,
+    pub pools: novasmt::Tree<C>,
+    pub history: novasmt::Tree<C>,
+    pub stakes: StakeSet,
+    pub transactions: Vec<Transaction>,
+}
+
+#[cfg(melstf_verif)]
+impl<C: ContentAddrStore> UnsealedState<C> {
+    /// Returns copies of all the fields of this state. Does not modify anything.
+    pub fn verif_view(&self) -> VerifView<C> {
+        VerifView {
+            network: self.network,
+            height: self.height,
+            fee_pool: self.fee_pool,
+            fee_multiplier: self.fee_multiplier,
+            tips: self.tips,
+            dosc_speed: self.dosc_speed,
+            coins: self.coins.inner().clone(),
+            pools: self.pools.mapping.clone(),
+            history: self.history.mapping.clone(),
+            stakes: self.stakes.clone(),
+            transactions: self.transactions.iter().cloned().collect(),
+        }
+    }
+}
+
+#[cfg(melstf_verif)]
+impl<C: ContentAddrStore> SealedState<C> {
+    /// Returns copies of all the fields of the underlying state. Does not modify anything.
+    pub fn verif_view(&self) -> VerifView<C> {
+        self.0.verif_view()
+    }
+}
+
 #[cfg(test)]
 mod tests {
     use std::collections::HashMap;
